@@ -228,6 +228,10 @@ def w2(prog, rep):
                      M + "audit::Proof::unchecked_from_parts",
                      re.compile(r"^<astria_merkle::audit::Proof as core::clone::Clone>::clone$")],
                     floor=2)
+    w2_tx(prog, rep)
+
+
+def w2_tx(prog, rep):
     # Transaction{..} only in try_from_raw / try_from_raw_ref (behind signature verification)
     # and TransactionBody::sign
     T = "astria_core::protocol::transaction::v1::"
